@@ -405,3 +405,104 @@ Proof.
   - unfold dec_spec_ok. destruct o; split; congruence.
 Qed.
 Local Transparent Z.mul.
+
+(** * Depth and Overwrite: the specification verdicts of the decoders *)
+
+(** what the verdict means: the canonical spellings are read with their value; an ASCII-case
+    variant of one is read with that value or refused; every other text is refused; never a
+    panic, never another value *)
+Lemma dec_spec_ci_meaning {A} (eqb : A -> A -> bool) (Heq : forall a b, eqb a b = true <-> a = b)
+  (den den_ci : option A) (o : obs A) :
+  dec_spec_ci eqb den den_ci o = true <->
+  match den, den_ci with
+  | Some v, _ => o = ObsOk v
+  | None, Some v => o = ObsOk v \/ o = ObsErr
+  | None, None => o = ObsErr
+  end.
+Proof.
+  unfold dec_spec_ci, dec_spec_ok, dec_spec_sound.
+  destruct den as [v|]; [|destruct den_ci as [v|]]; destruct o as [a| | |]; split;
+    try discriminate; try tauto; try congruence;
+    try (intros H; apply Heq in H; subst; auto; fail);
+    try (intros [H|H]; try discriminate; injection H as ->; apply Heq; reflexivity);
+    try (intros H; injection H as ->; apply Heq; reflexivity).
+Qed.
+
+Lemma bool_eqb_eq (a b : bool) : Bool.eqb a b = true <-> a = b.
+Proof. destruct a, b; cbn; split; congruence. Qed.
+
+Theorem depth_dec_spec_ok_meaning : forall s o,
+  depth_dec_spec_ok s o = true <->
+  match depth_den s, depth_den_ci s with
+  | Some v, _ => o = ObsOk v
+  | None, Some v => o = ObsOk v \/ o = ObsErr
+  | None, None => o = ObsErr
+  end.
+Proof. intros s o. apply dec_spec_ci_meaning. apply Z.eqb_eq. Qed.
+
+Theorem overwrite_dec_spec_ok_meaning : forall s o,
+  overwrite_dec_spec_ok s o = true <->
+  match overwrite_den s, overwrite_den_ci s with
+  | Some v, _ => o = ObsOk v
+  | None, Some v => o = ObsOk v \/ o = ObsErr
+  | None, None => o = ObsErr
+  end.
+Proof. intros s o. apply dec_spec_ci_meaning. apply bool_eqb_eq. Qed.
+
+(** the case-insensitive reading extends the exact one: a canonical spelling denotes the same value *)
+Lemma assoc_str_ci_of_exact {A} (l : list (string * A)) s v :
+  assoc_str l s = Some v -> exists v', assoc_str_ci l s = Some v'.
+Proof.
+  induction l as [|[k w] r IH]; [discriminate|]. cbn [assoc_str assoc_str_ci].
+  destruct (String.eqb_spec k s) as [->|_].
+  - intros _. rewrite String.eqb_refl. eauto.
+  - intros H. destruct (String.eqb _ _); eauto.
+Qed.
+
+(** the model of the present (case-sensitive) decoders meets the verdicts on every text *)
+Theorem depth_dec_model_meets_spec : forall s, depth_dec_spec_ok s (obs_of (parse_depth s)) = true.
+Proof.
+  intros s. apply depth_dec_spec_ok_meaning.
+  destruct (depth_den s) as [v|] eqn:D.
+  - apply parse_depth_ok_iff in D. rewrite D. reflexivity.
+  - destruct (parse_depth_total s) as [_ H]. rewrite (H D). destruct (depth_den_ci s); auto.
+Qed.
+
+Theorem overwrite_dec_model_meets_spec : forall s, overwrite_dec_spec_ok s (obs_of (parse_overwrite s)) = true.
+Proof.
+  intros s. apply overwrite_dec_spec_ok_meaning.
+  destruct (overwrite_den s) as [v|] eqn:D.
+  - apply parse_overwrite_ok_iff in D. rewrite D. reflexivity.
+  - destruct (parse_overwrite_total s) as [_ H]. rewrite (H D). destruct (overwrite_den_ci s); auto.
+Qed.
+
+(** the case-insensitive reading is the exact reading of the lower-cased text (Depth), and of
+    the text with its one letter in either case (Overwrite) *)
+Theorem depth_den_ci_spec : forall s, depth_den_ci s = depth_den (lower_ascii s).
+Proof.
+  intros s. unfold depth_den_ci, depth_den, depth_table. cbn [assoc_str_ci assoc_str lower_ascii ascii_lower].
+  reflexivity.
+Qed.
+
+Theorem overwrite_den_ci_spec : forall s b, overwrite_den_ci s = Some b <->
+  (s = format_overwrite b \/ s = lower_ascii (format_overwrite b)).
+Proof.
+  intros s b. unfold overwrite_den_ci, overwrite_table. cbn [assoc_str_ci].
+  change (lower_ascii "T") with "t"%string. change (lower_ascii "F") with "f"%string.
+  assert (L : forall x, lower_ascii s = String x EmptyString -> exists c, s = String c EmptyString /\ ascii_lower c = x).
+  { intros x H. destruct s as [|c [|d r]]; try discriminate. injection H as H. eauto. }
+  assert (Lc : forall c x, ascii_lower c = x -> (byte x = 116 \/ byte x = 102)%N -> c = x \/ byte c = (byte x - 32)%N).
+  { intros c x H Hx. unfold ascii_lower in H.
+    destruct ((65 <=? byte c) && (byte c <=? 90))%N eqn:U; [|left; exact H].
+    right. apply andb_true_iff in U. rewrite !N.leb_le in U. subst x. rewrite byte_chr by lia. lia. }
+  split.
+  - destruct (String.eqb_spec "t" (lower_ascii s)) as [E|_].
+    + intros [= <-]. symmetry in E. destruct (L _ E) as (c & -> & Hc).
+      destruct (Lc _ _ Hc) as [->|Hb]; [left; reflexivity|right; reflexivity|].
+      left. cbn. f_equal. apply byte_inj. rewrite Hb. reflexivity.
+    + destruct (String.eqb_spec "f" (lower_ascii s)) as [E|_]; [|discriminate].
+      intros [= <-]. symmetry in E. destruct (L _ E) as (c & -> & Hc).
+      destruct (Lc _ _ Hc) as [->|Hb]; [right; reflexivity|right; reflexivity|].
+      left. cbn. f_equal. apply byte_inj. rewrite Hb. reflexivity.
+  - destruct b; intros [->| ->]; reflexivity.
+Qed.
